@@ -1033,7 +1033,7 @@ class Context:
             arg = args[0]
             if isinstance(arg, (int, float)):
                 # new Int32Array(length)
-                return array_class(int(arg))
+                return array_class(self._array_length(arg))
             elif isinstance(arg, JSArrayBuffer):
                 # new Int32Array(buffer, byteOffset?, length?)
                 buffer = arg
@@ -1081,12 +1081,24 @@ class Context:
         constructor._name = name
         return constructor
 
+    @staticmethod
+    def _array_length(value) -> int:
+        """A length argument: an integer in [0, 2**32), else RangeError."""
+        from .errors import JSRangeError
+
+        if isinstance(value, float) and (math.isnan(value) or math.isinf(value)):
+            raise JSRangeError("Invalid array length")
+        length = int(value)
+        if length != value or not 0 <= length < 2**32:
+            raise JSRangeError("Invalid array length")
+        return length
+
     def _create_arraybuffer_constructor(self) -> JSCallableObject:
         """Create the ArrayBuffer constructor."""
         from .values import JSArrayBuffer
 
         def constructor_fn(*args):
-            length = int(args[0]) if args else 0
+            length = self._array_length(to_number(args[0])) if args else 0
             return JSArrayBuffer(length)
 
         constructor = JSCallableObject(constructor_fn)
